@@ -13,6 +13,7 @@ from .. import effects, checks, witness, fixtures
 from . import c05, c17
 
 CONFIGS = ("FULL", "XEN")
+THOROUGH_CONFIGS = ("MIN",)
 TRUSTED = [
     "the unsafe constructors' contracts (new / with_bitmap): the caller vouches for the extent it passes",
     "pointer provenance and what the bytes are (not decided)",
@@ -314,7 +315,7 @@ def run(ctx, progs):
         ctx.config = cfg
         eff = effects.Effects(prog)
         n = rule_sinks(ctx.ob, prog, eff)
-        ctx.floor("R1.1.sinks", n, 14)
+        ctx.floor("R1.1.sinks", n, 14, MIN=13)
         n = rule_references(ctx.ob, prog, eff)
         ctx.floor("R1.5.references", n, 4)
         n = rule_bytevalued(ctx.ob, prog, eff)
